@@ -189,7 +189,7 @@ func (c Case) options(files map[string]string) api.BuildOptions {
 		o.Format = api.FormatESModule
 	}
 	o.EntryPoints = []string{"/in/f0.js"}
-	if c.Splitting && len(files) > 2 {
+	if c.Splitting && len(files) > 2 && !strings.Contains(files["f0.js"], "import(\"./f1.js\")") {
 		o.EntryPoints = append(o.EntryPoints, "/in/f1.js")
 	}
 	o.Plugins = []api.Plugin{{Name: "mem", Setup: func(b api.PluginBuild) {
@@ -468,6 +468,7 @@ func runMaps(t *testing.T) {
 		c := Case{Files: map[string]string{}}
 		n := rapid.IntRange(1, 4).Draw(rt, "nfiles")
 		c.Bundle = n > 1 || rapid.Bool().Draw(rt, "bundle")
+		dyn := n > 1 && rapid.IntRange(0, 2).Draw(rt, "dynamic") == 0
 		for i := n - 1; i >= 0; i-- {
 			g := &mg{t: rt, file: i}
 			var imports []string
@@ -479,7 +480,17 @@ func runMaps(t *testing.T) {
 			} else {
 				imports = append(imports, "import { sink } from \"sinkmod\";")
 			}
-			c.Files[fmt.Sprintf("f%d.js", i)] = g.program(rapid.IntRange(2, 7).Draw(rt, "nstmts"), false, imports)
+			src := g.program(rapid.IntRange(2, 7).Draw(rt, "nstmts"), false, imports)
+			if i == 0 && n > 1 && dyn {
+				// dynamic imports on consecutive lines: with splitting the final (hashed, variable-length) chunk
+				// paths are substituted in front of mapped tokens on the same line
+				for j := 1; j < n; j++ {
+					a, b := g.ident(), g.ident()
+					src += fmt.Sprintf("\nimport(\"./f%d.js\").then((%s) => sink(%s.%s, %s, %s));", j, a, a, b, g.str(), g.num())
+				}
+				src += "\n"
+			}
+			c.Files[fmt.Sprintf("f%d.js", i)] = src
 		}
 		c.SourceMap = rapid.SampledFrom([]string{"inline", "linked", "external", "both"}).Draw(rt, "mode")
 		c.NoContent = rapid.IntRange(0, 3).Draw(rt, "nocontent") == 0
@@ -491,7 +502,7 @@ func runMaps(t *testing.T) {
 		c.SourceRoot = rapid.SampledFrom([]string{"", "", "https://example.com/src/"}).Draw(rt, "sourceroot")
 		if c.Bundle {
 			c.Format = rapid.SampledFrom([]string{"esm", "cjs", "iife"}).Draw(rt, "format")
-			if n > 2 && rapid.IntRange(0, 2).Draw(rt, "splitting") == 0 {
+			if dyn || (n > 2 && rapid.IntRange(0, 2).Draw(rt, "splitting") == 0) {
 				c.Splitting = true
 				c.ChunkNames = rapid.SampledFrom([]string{"", "chunks/[name]-[hash]", "c-[hash]-long-long-long-name"}).Draw(rt, "chunknames")
 			}
